@@ -656,6 +656,7 @@ def opts_kk_fixed(test=None):
         o["log_F_ext"] = float(rng.choice([0.0, rng.uniform(-0.5, 0.5)]))
         if o["test"] == "cnls":
             o["max_nfev"] = int(rng.choice([0, 200]))
+            o["timeout"] = 3600  # the default (60 s per fit) would make the outcome depend on wall-clock time under load
         return o, None
 
     return fn
@@ -671,6 +672,8 @@ def opts_kk_auto(test=None, nfext=None):
             o["log_F_ext"] = float(rng.choice([0.0, rng.uniform(-0.5, 0.5)]))
         else:
             o["rapid_F_ext_evaluations"] = bool(rng.random() < 0.7)
+        if o["test"] == "cnls":
+            o["timeout"] = 3600  # see opts_kk_fixed
         return o, None
 
     return fn
